@@ -1,4 +1,6 @@
 import StatimeModel.Lemmas.Frames
+import StatimeModel.Lemmas.Tlv
+import StatimeModel.Lemmas.WireRoundtrip
 /-
 C15 — Boundary clocks propagate TLVs faithfully and break path-trace loops.
 
@@ -35,5 +37,323 @@ theorem forward_actions (p : Port) (m : Msg) (a : Ann) :
       · rw [List.filterMap_append, List.filterMap_append, hmap, hset]; rfl
     · rw [List.filterMap_append, hmap]; rfl
   · rfl
+
+/-! ### what the announce timer puts into the Announce -/
+
+/-- the path trace TLV of this instance: the stored path with the own identity appended -/
+def ownPathTlv (s : InstState) : Tlv := ⟨TLV_PATH_TRACE, (s.pathTrace ++ [s.dflt.clockIdentity]).flatMap clockIdBytes⟩
+
+/-- the TLVs (not bytes) of the path trace part of an emitted Announce: none or the own path TLV -/
+def pathPart (s : InstState) (p : Port) : List Tlv :=
+  if s.pathEnable ∧ s.pathTrace.length < PATH_TRACE_CAP ∧ announceMargin s p > (ownPathTlv s).wireSize then [ownPathTlv s] else []
+
+theorem announcePathTlv_eq (s : InstState) (p : Port) :
+    (announcePathTlv s (announceMargin s p)).1 = (pathPart s p).flatMap Tlv.bytes ∧
+    (announcePathTlv s (announceMargin s p)).2 = announceMargin s p - ((pathPart s p).map Tlv.wireSize).sum := by
+  unfold announcePathTlv pathPart ownPathTlv
+  by_cases h1 : s.pathEnable = true
+  · by_cases h2 : s.pathTrace.length < PATH_TRACE_CAP
+    · by_cases h3 : announceMargin s p > (⟨TLV_PATH_TRACE, (s.pathTrace ++ [s.dflt.clockIdentity]).flatMap clockIdBytes⟩ : Tlv).wireSize
+      · rw [if_pos h1, if_pos h2, if_pos h3, if_pos ⟨h1, h2, h3⟩]; simp
+      · rw [if_pos h1, if_pos h2, if_neg h3, if_neg (fun h => h3 h.2.2)]; simp
+    · rw [if_pos h1, if_neg h2, if_neg (fun h => h2 h.2.1)]; simp
+  · rw [if_neg h1, if_neg (fun h => h1 h.1)]; simp
+
+/-- **Forwarding, stated for the emitted Announce.** On the announce timer of a Master port the host's queue `q`
+splits into a consumed prefix `taken` and the returned rest `q'`; the TLV suffix of the Announce is the own path
+trace TLV (when the option is on and it fits) followed by exactly the consumed TLVs that were sent by the current
+parent (and are not PATH_TRACE when the option is on), byte for byte and in queue order. Nothing of another sender
+is ever forwarded, nothing is forwarded twice (the consumed prefix is gone from the queue), and what is left behind
+starts with a TLV that does not fit the room that remains. -/
+theorem announce_suffix (p p' : Port) (s : InstState) (q q' : List FwdTlv) (loose : Bool) (outs : List Out)
+    (hm : p.st = .master) (h : p.sendAnnounce s q loose = .ok (p', outs, q')) :
+    ∃ (m : Msg) (taken : List FwdTlv),
+      outs = [.reset .announce (.exact (intervalNs p.cfg.announceLog)), .sendGeneral (encode m) false] ∧
+      q = taken ++ q' ∧ m.body.type = .announce ∧ m.header.src = p.id ∧
+      m.suffix = ((pathPart s p) ++ (taken.filter (fwdKeep s.parent.parentPort s.pathEnable)).map (fun t => t.tlv)).flatMap Tlv.bytes ∧
+      (∀ t ∈ taken.filter (fwdKeep s.parent.parentPort s.pathEnable), t.sender = s.parent.parentPort) ∧
+      ((pathPart s p).map Tlv.wireSize).sum + fwdUsed s.parent.parentPort s.pathEnable taken ≤ announceMargin s p ∧
+      (∀ t rest, q' = t :: rest →
+        fwdFits loose t.tlv.wireSize
+          (announceMargin s p - ((pathPart s p).map Tlv.wireSize).sum - fwdUsed s.parent.parentPort s.pathEnable taken) = false) := by
+  rcases sendAnnounce_shape p p' s q q' loose outs h with ⟨_, _, hq', ho⟩ | ⟨hn, _⟩
+  · obtain ⟨e1, e2⟩ := announcePathTlv_eq s p
+    obtain ⟨taken, h1, h2, h3, h4⟩ := fwdLoop_spec s.parent.parentPort s.pathEnable loose (q.length + 1) q
+      (announcePathTlv s (announceMargin s p)).2 [] (Nat.lt_succ_self _)
+    have hfw : p.announceFwd s q loose = fwdLoop s.parent.parentPort s.pathEnable loose (q.length + 1) q
+      (announcePathTlv s (announceMargin s p)).2 [] := rfl
+    rw [← hfw] at h1 h2 h4
+    rw [e2] at h3 h4
+    refine ⟨p.announceMsg s (p.announceFwd s q loose).1, taken, ho, by rw [hq']; exact h1, rfl, rfl, ?_, ?_, ?_, ?_⟩
+    · show (announcePathTlv s (announceMargin s p)).1 ++ (p.announceFwd s q loose).1 = _
+      rw [e1, h2, List.flatMap_append, List.nil_append]
+    · intro t ht
+      have := (List.mem_filter.1 ht).2
+      unfold fwdKeep at this
+      simp only [Bool.and_eq_true, decide_eq_true_eq] at this
+      exact this.1
+    · have hle : ((pathPart s p).map Tlv.wireSize).sum ≤ announceMargin s p := by
+        unfold pathPart
+        split
+        · rename_i hc; simp only [List.map_cons, List.map_nil, List.sum_cons, List.sum_nil, Nat.add_zero]; omega
+        · simp
+      omega
+    · intro t rest hq
+      exact h4 t rest (by rw [← hq, hq'])
+  · exact absurd hm hn
+
+theorem announceMargin_eq (s : InstState) (p : Port) : announceMargin s p = MAX_DATA_LEN - 64 := rfl
+
+theorem sum_map_append (a b : List Tlv) : ((a ++ b).map Tlv.wireSize).sum = (a.map Tlv.wireSize).sum + (b.map Tlv.wireSize).sum := by
+  rw [List.map_append, List.sum_append]
+
+/-- **Forwarding never makes the frame exceed the maximum size**: every Announce a Master port emits is at most
+1024 octets long (and is always emitted: the announce timer has no failure branch). -/
+theorem announce_fits (p p' : Port) (s : InstState) (q q' : List FwdTlv) (loose : Bool) (outs : List Out)
+    (hm : p.st = .master) (h : p.sendAnnounce s q loose = .ok (p', outs, q')) :
+    ∃ m, outs = [.reset .announce (.exact (intervalNs p.cfg.announceLog)), .sendGeneral (encode m) false] ∧
+      (encode m).length ≤ MAX_DATA_LEN := by
+  obtain ⟨m, taken, ho, _, hty, _, hs, _, hroom, _⟩ := announce_suffix p p' s q q' loose outs hm h
+  refine ⟨m, ho, ?_⟩
+  rw [encode_length]
+  unfold Msg.wireSize
+  rw [hty, hs, flatMap_bytes_length, sum_map_append]
+  have : (((taken.filter (fwdKeep s.parent.parentPort s.pathEnable)).map (fun t => t.tlv)).map Tlv.wireSize).sum =
+      fwdUsed s.parent.parentPort s.pathEnable taken := by
+    unfold fwdUsed; rw [List.map_map]; rfl
+  rw [this]
+  rw [announceMargin_eq] at hroom
+  unfold MAX_DATA_LEN at *
+  show 34 + 30 + _ ≤ 1024
+  omega
+
+/-- the announce timer of a Master port never fails -/
+theorem announce_always_sent (p : Port) (s : InstState) (q : List FwdTlv) (loose : Bool) (hm : p.st = .master) :
+    ∃ p' outs q', p.sendAnnounce s q loose = .ok (p', outs, q') ∧ (sentFrames outs).length = 1 := by
+  unfold Port.sendAnnounce
+  rw [if_pos hm]
+  exact ⟨_, _, _, rfl, rfl⟩
+
+/-! ### the emitted Announce decodes under the library's own parser -/
+
+/-- ranges the Rust types guarantee for what goes into an Announce -/
+def AnnounceRanges (p : Port) (s : InstState) : Prop :=
+  s.dflt.sdoId < 4096 ∧ s.dflt.domain < 256 ∧ p.id.WF ∧ p.cfg.minorVersion < 16 ∧ p.annSeq < 65536 ∧
+  (∀ v, s.tp.utcOffset = some v → -32768 ≤ v ∧ v < 32768) ∧ s.parent.gmP1 < 256 ∧ s.parent.gmQuality.clockClass < 256 ∧
+  (s.parent.gmQuality.accuracy < 256 ∧ normAccuracy s.parent.gmQuality.accuracy = s.parent.gmQuality.accuracy) ∧
+  s.parent.gmQuality.variance < 65536 ∧ s.parent.gmP2 < 256 ∧ s.parent.gmIdentity < 18446744073709551616 ∧
+  s.stepsRemoved < 65536 ∧ s.tp.timeSource < 256
+
+theorem clockIdBytes_length (c : Nat) : (clockIdBytes c).length = 8 := by unfold clockIdBytes; simp
+
+theorem flatMap_clockId_length (l : List Nat) : (l.flatMap clockIdBytes).length = 8 * l.length := by
+  induction l with
+  | nil => rfl
+  | cons x xs ih => simp only [List.flatMap_cons, List.length_append, clockIdBytes_length, List.length_cons, ih]; omega
+
+theorem ownPathTlv_WF (s : InstState) (h : s.pathTrace.length < PATH_TRACE_CAP) : (ownPathTlv s).WF := by
+  unfold ownPathTlv Tlv.WF PATH_TRACE_CAP at *
+  simp only [flatMap_clockId_length, List.length_append, List.length_singleton]
+  refine ⟨by decide, by omega, by omega⟩
+
+/-- **Forwarding never makes the frame undecodable by the library's own parser**: with queued TLVs the parser
+itself produced (`Tlv.WF`), every Announce a Master port emits decodes to the message it was built from. -/
+theorem announce_decodes (p p' : Port) (s : InstState) (q q' : List FwdTlv) (loose : Bool) (outs : List Out)
+    (hm : p.st = .master) (hr : AnnounceRanges p s) (hq : ∀ t ∈ q, t.tlv.WF)
+    (h : p.sendAnnounce s q loose = .ok (p', outs, q')) :
+    ∃ m, outs = [.reset .announce (.exact (intervalNs p.cfg.announceLog)), .sendGeneral (encode m) false] ∧
+      decode (encode m) = .ok m := by
+  obtain ⟨m0, taken, ho0, hsplit, _, _, hs0, _, _, _⟩ := announce_suffix p p' s q q' loose outs hm h
+  obtain ⟨mf, hof, hlen⟩ := announce_fits p p' s q q' loose outs hm h
+  rcases sendAnnounce_shape p p' s q q' loose outs h with ⟨_, _, _, ho⟩ | ⟨hn, _⟩
+  · refine ⟨p.announceMsg s (p.announceFwd s q loose).1, ho, decode_encode _ ?_⟩
+    have hm0 : m0.suffix = (p.announceMsg s (p.announceFwd s q loose).1).suffix := by
+      -- both are the suffix computed by announce_suffix for this call
+      obtain ⟨e1, e2⟩ := announcePathTlv_eq s p
+      obtain ⟨taken2, h1, h2, _, _⟩ := fwdLoop_spec s.parent.parentPort s.pathEnable loose (q.length + 1) q
+        (announcePathTlv s (announceMargin s p)).2 [] (Nat.lt_succ_self _)
+      have hfw : p.announceFwd s q loose = fwdLoop s.parent.parentPort s.pathEnable loose (q.length + 1) q
+        (announcePathTlv s (announceMargin s p)).2 [] := rfl
+      rw [← hfw] at h1 h2
+      have hq2 : q' = (p.announceFwd s q loose).2 := by
+        rcases sendAnnounce_shape p p' s q q' loose outs h with ⟨_, _, x, _⟩ | ⟨hn, _⟩
+        · exact x
+        · exact absurd hm hn
+      have ht : taken2 = taken := by
+        rw [← hq2] at h1
+        exact List.append_cancel_right (h1.symm.trans hsplit)
+      show _ = (announcePathTlv s (announceMargin s p)).1 ++ (p.announceFwd s q loose).1
+      rw [hs0, e1, h2, ht, List.flatMap_append, List.nil_append]
+    have hsfx := hm0 ▸ hs0
+    obtain ⟨r1, r2, r3, r4, r5, r6, r7, r8, r9, r10, r11, r12, r13, r14⟩ := hr
+    refine ⟨?_, ?_, ?_, ?_⟩
+    · exact ⟨r1, (by show (2 : Nat) < 16; decide), r4, r2,
+        ⟨(by show (-9223372036854775808 : Int) ≤ 0; decide), (by show (0 : Int) < 9223372036854775808; decide)⟩, r3, r5,
+        ⟨(by show (-128 : Int) ≤ 0; decide), (by show (0 : Int) < 128; decide)⟩⟩
+    · show AnnounceBody.WF _
+      refine ⟨⟨(by show (0 : Nat) < 281474976710656; decide), (by show (0 : Nat) < 4294967296; decide)⟩, ?_, r7, r8, r9, r10, r11, r12, r13, r14⟩
+      show -32768 ≤ s.tp.utcOffset.getD 0 ∧ s.tp.utcOffset.getD 0 < 32768
+      cases hu : s.tp.utcOffset with
+      | none => exact ⟨(by decide), (by decide)⟩
+      | some v => exact r6 v hu
+    · rw [hsfx]
+      apply tlvCheck_flatMap
+      · intro t ht
+        rcases List.mem_append.1 ht with h1 | h1
+        · unfold pathPart at h1
+          split at h1
+          · rename_i hc
+            simp only [List.mem_singleton] at h1
+            rw [h1]; exact ownPathTlv_WF s hc.2.1
+          · cases h1
+        · obtain ⟨ft, hft, rfl⟩ := List.mem_map.1 h1
+          have : ft ∈ q := by
+            rw [hsplit]; exact List.mem_append_left _ (List.mem_filter.1 hft).1
+          exact hq ft this
+      · exact Nat.le_refl _
+    · have := hlen
+      rw [hof] at ho
+      simp only [List.cons.injEq, Out.sendGeneral.injEq, and_true, true_and] at ho
+      have e : (encode (p.announceMsg s (p.announceFwd s q loose).1)).length ≤ MAX_DATA_LEN := by rw [← ho]; exact hlen
+      rw [encode_length] at e
+      unfold MAX_DATA_LEN at e
+      omega
+  · exact absurd hm hn
+
+/-! ### path trace -/
+
+/-- **With the path-trace option on, an emitted Announce carries the stored path with the own identity appended**
+(as its first TLV), whenever the path has room for one more entry and the TLV fits the Announce. -/
+theorem announce_path_trace (p p' : Port) (s : InstState) (q q' : List FwdTlv) (loose : Bool) (outs : List Out)
+    (hm : p.st = .master) (hpe : s.pathEnable = true) (hlen : s.pathTrace.length < PATH_TRACE_CAP)
+    (hroom : announceMargin s p > (ownPathTlv s).wireSize)
+    (h : p.sendAnnounce s q loose = .ok (p', outs, q')) :
+    ∃ (m : Msg) (rest : List UInt8), outs = [.reset .announce (.exact (intervalNs p.cfg.announceLog)), .sendGeneral (encode m) false] ∧
+      m.suffix = (ownPathTlv s).bytes ++ rest ∧
+      (ownPathTlv s).ty = TLV_PATH_TRACE ∧ (ownPathTlv s).value = (s.pathTrace ++ [s.dflt.clockIdentity]).flatMap clockIdBytes := by
+  obtain ⟨m, taken, ho, _, _, _, hs, _⟩ := announce_suffix p p' s q q' loose outs hm h
+  have : pathPart s p = [ownPathTlv s] := by unfold pathPart; rw [if_pos ⟨hpe, hlen, hroom⟩]
+  rw [this, List.cons_append, List.flatMap_cons] at hs
+  exact ⟨m, _, ho, hs, rfl, rfl⟩
+
+/-- the path TLV fits exactly when the stored path has at most 118 entries (4 + 8·(n+1) < 1024 − 64): with longer
+stored paths the Announce is sent without it — there is no room, and the frame must not exceed 1024 octets -/
+theorem path_tlv_fits_iff (p : Port) (s : InstState) :
+    announceMargin s p > (ownPathTlv s).wireSize ↔ s.pathTrace.length ≤ 118 := by
+  rw [announceMargin_eq]
+  unfold ownPathTlv Tlv.wireSize MAX_DATA_LEN
+  simp only [flatMap_clockId_length, List.length_append, List.length_singleton]
+  omega
+
+/-- the stored path is the one received from the parent: an Announce of the parent on the Slave port that is not
+looping stores the identities of its (first) PATH_TRACE TLV -/
+theorem path_trace_stored (p : Port) (s s1 : InstState) (m : Msg) (a : Ann) (t : Tlv)
+    (hs : p.st.isSlave = true) (hp : a.hdr.src = s.parent.parentPort) (hpt : pathTlvOf s m = some t)
+    (h : p.announceUpdate s m a = .ok (s1, false)) : s1.pathTrace = pathOf t.value := by
+  rcases announceUpdate_cases p s s1 m a false h with ⟨hn, _⟩ | ⟨_, _, _, _, hl⟩ | ⟨_, _, _, _, s2, _, hst⟩
+  · exact absurd ⟨hs, hp⟩ hn
+  · cases hl
+  · rw [hpt] at hst
+    rcases storePath_spec s2 s1 _ hst with ⟨e, _⟩ | ⟨t', e, e2, _⟩
+    · cases e
+    · cases e; rw [e2]
+
+/-- … and without a PATH_TRACE TLV in the parent's Announce (or with the option off) the stored path is kept -/
+theorem path_trace_kept (p : Port) (s s1 : InstState) (m : Msg) (a : Ann) (loop : Bool)
+    (hpt : pathTlvOf s m = none) (h : p.announceUpdate s m a = .ok (s1, loop)) : s1.pathTrace = s.pathTrace := by
+  rcases announceUpdate_cases p s s1 m a loop h with ⟨_, e, _⟩ | ⟨_, _, _, e, _⟩ | ⟨_, _, _, _, s2, hap, hst⟩
+  · rw [e]
+  · rw [e]
+  · rw [hpt] at hst
+    rcases storePath_spec s2 s1 _ hst with ⟨_, e⟩ | ⟨t', e, _, _⟩
+    · rw [e]
+      unfold InstState.applyParent at hap
+      split at hap
+      · cases hap
+      · simp only [Except.ok.injEq] at hap; rw [← hap]
+    · cases e
+
+/-- **An Announce from the parent whose path already contains the instance's identity is discarded**: it changes
+no data set, no foreign master record, no port state, arms no timer and is not forwarded. -/
+theorem loop_discarded (p p' : Port) (s s' : InstState) (m : Msg) (ab : AnnounceBody) (outs : List Out)
+    (hs : p.st.isSlave = true) (hp : m.header.src = s.parent.parentPort)
+    (hloop : loopsBack s (pathTlvOf s m) = true)
+    (h : p.handleAnnounce s m ab = .ok (p', s', outs)) : p' = p ∧ s' = s ∧ outs = [] := by
+  unfold Port.handleAnnounce at h
+  split at h
+  · cases h
+  · rename_i s1 loop hu
+    rcases announceUpdate_cases p s s1 m ⟨m.header, ab⟩ loop hu with ⟨hn, _⟩ | ⟨_, _, _, e1, e2⟩ | ⟨_, _, hl, _⟩
+    · exact absurd ⟨hs, hp⟩ hn
+    · rw [e2] at h
+      simp only [if_true, Except.ok.injEq, Prod.mk.injEq] at h
+      exact ⟨h.1.symm, by rw [← h.2.1, e1], h.2.2.symm⟩
+    · rw [hloop] at hl; cases hl
+
+/-- what "the path contains the own identity" means: one of the 8-octet groups of the first PATH_TRACE TLV -/
+theorem loopsBack_iff (s : InstState) (m : Msg) :
+    loopsBack s (pathTlvOf s m) = true ↔
+      s.pathEnable = true ∧ ∃ t, (tlvs m.suffix).find? (fun t => t.ty = TLV_PATH_TRACE) = some t ∧
+        s.dflt.clockIdentity ∈ pathOf t.value := by
+  unfold loopsBack pathTlvOf
+  by_cases he : s.pathEnable = true
+  · rw [if_pos he]
+    cases hf : (tlvs m.suffix).find? (fun t => t.ty = TLV_PATH_TRACE) with
+    | none => simp
+    | some t => simp [he]
+  · rw [if_neg he]; simp [he]
+
+/-- **Unmodified**: read back with the library's own TLV iterator, the suffix of the emitted Announce is the own path
+TLV followed by the very TLVs (type and value) that were queued by the parent, in queue order. -/
+theorem announce_suffix_parses (p p' : Port) (s : InstState) (q q' : List FwdTlv) (loose : Bool) (outs : List Out)
+    (hm : p.st = .master) (hq : ∀ t ∈ q, t.tlv.WF) (h : p.sendAnnounce s q loose = .ok (p', outs, q')) :
+    ∃ (m : Msg) (taken : List FwdTlv),
+      outs = [.reset .announce (.exact (intervalNs p.cfg.announceLog)), .sendGeneral (encode m) false] ∧ q = taken ++ q' ∧
+      tlvs m.suffix = pathPart s p ++ (taken.filter (fwdKeep s.parent.parentPort s.pathEnable)).map (fun t => t.tlv) := by
+  obtain ⟨m, taken, ho, hsplit, _, _, hs, _⟩ := announce_suffix p p' s q q' loose outs hm h
+  refine ⟨m, taken, ho, hsplit, ?_⟩
+  unfold tlvs
+  rw [hs]
+  apply tlvIter_flatMap
+  · intro t ht
+    rcases List.mem_append.1 ht with h1 | h1
+    · unfold pathPart at h1
+      split at h1
+      · rename_i hc
+        simp only [List.mem_singleton] at h1
+        rw [h1]; exact ownPathTlv_WF s hc.2.1
+      · cases h1
+    · obtain ⟨ft, hft, rfl⟩ := List.mem_map.1 h1
+      exact hq ft (by rw [hsplit]; exact List.mem_append_left _ (List.mem_filter.1 hft).1)
+  · exact Nat.le_refl _
+
+/-- the identities of a serialized path read back as they were written -/
+theorem pathOf_roundtrip (l : List Nat) (h : ∀ c ∈ l, c < 18446744073709551616) : pathOf (l.flatMap clockIdBytes) = l := by
+  unfold pathOf
+  have key : ∀ (l : List Nat) (f : Nat), (∀ c ∈ l, c < 18446744073709551616) → (l.flatMap clockIdBytes).length ≤ f →
+      chunks8 f (l.flatMap clockIdBytes) = l := by
+    intro l
+    induction l with
+    | nil => intro f _ _; cases f <;> simp [chunks8]
+    | cons c cs ih =>
+      intro f hc hf
+      simp only [List.flatMap_cons, List.length_append, clockIdBytes_length] at hf
+      cases f with
+      | zero => omega
+      | succ f' =>
+        unfold chunks8
+        simp only [List.flatMap_cons]
+        rw [if_pos (by simp only [List.length_append, clockIdBytes_length]; omega)]
+        have h1 : beVal (clockIdBytes c ++ cs.flatMap clockIdBytes) 0 8 = c := by
+          unfold clockIdBytes
+          rw [beVal_beBytes]
+          have : (256 : Nat) ^ 8 = 18446744073709551616 := by decide
+          rw [this]
+          exact Nat.mod_eq_of_lt (hc c List.mem_cons_self)
+        have h2 : (clockIdBytes c ++ cs.flatMap clockIdBytes).drop 8 = cs.flatMap clockIdBytes := by
+          have : 8 = (clockIdBytes c).length := (clockIdBytes_length c).symm
+          rw [this, List.drop_left]
+        rw [h1, h2, ih f' (fun x hx => hc x (List.mem_cons_of_mem _ hx)) (by omega)]
+  exact key l _ h (Nat.le_refl _)
 
 end Statime.C15
